@@ -15,14 +15,20 @@
                                    by 2n ≡ the negacyclic convolution Σ_{i+k=j} a_i·b_k − Σ_{i+k=j+2n} a_i·b_k modulo p
     naive_convolution_1_val        mpir_fft_naive_convolution_1 = the same convolution of the low limbs modulo 2^64
     negacyclic_crt                 the two residues determine the coefficient: what mulmod_2expp1.c:127-139 stores
-  NOT proved (run only, op fftx_mulmod_Bexpp1_fft against the product modulo B^limbs+1): the final assembly of
-  mpir_fft_mulmod_2expp1 (mpir_fft_combine_bits on limbs+1-limb coefficients, the two's-complement sign corrections
-  :147-163, the wrap-around of the last coefficient :165-171), hence "mpir_fft_mulmod_2expp1 = product mod 2^(64·r_limbs)+1"
-  as a whole:
-    -- theorem fft_mulmod_2expp1_val (i1 i2 : List Nat) (depth w) … :
-    --   rval (fft_mulmod_2expp1 i1 i2 depth w) ≡ val i1 * val i2 [ZMOD B^r_limbs + 1]
+    recombine_corrected            … and the sign correction of :153-167 applied to the stored pair (ii[j], r[j]) gives back the coefficient
+  The whole function has a value-level model (Mpir/Model/FftMulmod.lean: `fft_mulmod_2expp1`, r1 as a number modulo
+  B^(r_limbs+1)) that is run against the C (op fftx_fft_mulmod_2expp1) and, through mpn_mulmod_Bexpp1, against the
+  specification (op fftx_mulmod_Bexpp1_fft).  NOT proved: the composition of the theorems above into
+    -- theorem fft_mulmod_2expp1_val (i1 i2 : List Nat) (depth w : Nat) (hi1 : Limbs i1) (hi2 : Limbs i2)
+    --     (hl : i2.length = i1.length) (hR : i1.length = 2 * 2 ^ depth * la) (hla : 1 ≤ la) (hd : 1 ≤ depth)
+    --     (hw : 2 ^ depth * w = 128 * la) :
+    --   fft_mulmod_2expp1 i1 i2 depth w = canon i1.length (val i1 * val i2)
+  missing: the fold of mpir_fft_combine_bits and of the corrections over the 2n − 1 coefficients (every step an addition
+  modulo B^(r_limbs+1), no carry leaves a window because the limb above it is still zero), the wrap-around of the last
+  coefficient (X^(2n) = B^r_limbs ≡ −1; that coefficient is never negative), the bound |Σ c_j X^j| < B^(r_limbs+1)/2 that
+  makes the signed reading of r1 exact, and Σ_j c_j X^j ≡ i1·i2 (the negacyclic Cauchy product at X = 2^bits1).
 -/
-import MpirProofs.Lemmas.FftXNegConv
+import MpirProofs.Lemmas.FftXRecomb
 import MpirProofs.Props.C01_fftx
 namespace Mpir.FftX
 open Mpir Finset
@@ -131,5 +137,27 @@ theorem negacyclic_crt (L : Nat) (hL : 1 ≤ L) (c v : Int) (hv0 : 0 ≤ v) (hv1
 example : (-5 : Int) ≡ (B : Int) - 4 [ZMOD (B : Int) ^ 1 + 1] := by decide
 example : ((B : Int) - 4) + (((-5 : Int) % B - ((B : Int) - 4) % B) % B) * ((B : Int) ^ 1 + 1) = -5 + (B : Int) ^ 2 + B := by
   decide
+
+/-- One coefficient of mpir_fft_mulmod_2expp1, from the residues to the corrected contribution: let v be the canonical
+    residue (limbs+1 = L+1 limbs) of a coefficient c with |c| < B^(L+1)/2 and rj = c mod B the word of the word
+    convolution.  `recombine` — mulmod_2expp1.c:133-138: τ = r[j] − ii[j][0], ii[j][limbs] = τ, mpn_add_1 of τ, the saved top
+    limb added with add_ssaaaa, the carries collected in r[j] — leaves (U, r) with U < B^(L+1), r ≤ 1, and the C's correction
+    (:153-167: subtract B when r[j] ≠ 0; subtract B and B^(L+1) when the top limb of ii[j] is negative as a signed limb)
+    gives exactly c. -/
+theorem recombine_corrected (L : Nat) (hL : 1 ≤ L) (c : Int) (v : List Nat) (rj : Nat)
+    (hvl : v.length = L + 1) (hvL : Limbs v)
+    (hvn : Fft.top v = 0 ∨ (Fft.top v = 1 ∧ val (Fft.lo v) = 0))
+    (hcv : c ≡ Fft.rval v [ZMOD (B : Int) ^ L + 1]) (hr : (rj : Int) = c % B)
+    (hlo : -((B : Int) ^ (L + 1)) ≤ 2 * c) (hhi : 2 * c < (B : Int) ^ (L + 1)) :
+    ((recombine L v rj).1 : Int) -
+        (if (recombine L v rj).2 ≠ 0 then (B : Int)
+         else if (recombine L v rj).1 / B ^ L ≥ B / 2 then (B : Int) + (B : Int) ^ (L + 1) else 0) = c ∧
+    (recombine L v rj).1 < B ^ (L + 1) ∧ (recombine L v rj).2 ≤ 1 :=
+  recombine_spec L hL c v rj hvl hvL hvn hcv hr hlo hhi
+
+-- non-vacuity (L = 1): c = −5 (residue B − 4, word B − 5): overflow word set; c = −B − 7: sign bit; c = 9
+example : recombine 1 [B - 4, 0] (B - 5) = (B - 5, 1) := by decide +kernel
+example : recombine 1 [B - 5, 0] (B - 7) = (B ^ 2 - 7, 0) := by decide +kernel
+example : recombine 1 [9, 0] 9 = (9, 0) := by decide +kernel
 
 end Mpir.FftX
